@@ -135,10 +135,14 @@ where
         }
     }
 
+    #[cfg(feature = "verif-hooks")]
+    crate::verif_hooks::yield_point("precreate:directory-ready");
     // Atomically create the file only if it doesn't exist.
     // This uses O_CREAT | O_EXCL on Unix, which is atomic.
     match OpenOptions::new().write(true).create_new(true).open(path) {
         Ok(_file) => {
+            #[cfg(feature = "verif-hooks")]
+            crate::verif_hooks::yield_point("precreate:file-created");
             // File was created by us - set secure permissions
             set_secure_file_permissions(path)?;
             Ok(FileCreationOutcome::Created)
